@@ -157,6 +157,12 @@ def _case(rng: Rng, tier, entry=None, force=None):
         vs.append(["subxsame", [rs(t) for t in _scale_pts(dom, v1[0][1])], case["Q2"]])
         case["variants"] = vs[:5]
         if method == "LP":
+            # the exact 2-D local problems are the expensive part of the model: small product query sets
+            keep = lambda v, k: v[:k]  # noqa: E731
+            case["Q"], case["Q2"] = keep(case["Q"], 4), keep(case["Q2"], 3)
+            Q1s, Q2s = case["Q"], case["Q2"]
+            case["variants"] = [["subxsame", Q1s[1:3], Q2s], ["singlexthin", [Q1s[2]], Q2s[::2]], ["permxperm", Q1s[::-1], [Q2s[1], Q2s[2], Q2s[0]]],
+                                ["superxsub", sorted(set(Q1s) | {case["x"][0]}, key=F), Q2s[:2]]]
             case["hu"] = rs(rng.choice([Fraction(1, 2), Fraction(3, 4), Fraction(1)]))
             case["degree"] = rng.choice([0, 1, 1, 2])
     elif entry.startswith("DenseFunctionalData"):
@@ -172,6 +178,9 @@ def _case(rng: Rng, tier, entry=None, force=None):
         if cov:
             case["variants"] = case["variants"][:5]
         if cov and method == "LP":
+            case["Q"] = case["Q"][:4]
+            Qs = case["Q"]
+            case["variants"] = [["sub", Qs[1:3]], ["thin", Qs[::2]], ["single", [Qs[2]]], ["perm", [Qs[2], Qs[0], Qs[3], Qs[1]]], ["super", sorted(set(Qs) | {case["x"][0]}, key=F)]]
             case["degree"] = rng.choice([1, 2])
             case["hu"] = rs(rng.choice([Fraction(1, 2), Fraction(3, 4), Fraction(1)]))
     else:  # irregular
@@ -194,6 +203,9 @@ def _case(rng: Rng, tier, entry=None, force=None):
         if cov:
             case["variants"] = case["variants"][:5]
         if cov and method == "LP":
+            case["Q"] = case["Q"][:4]
+            Qs = case["Q"]
+            case["variants"] = [["sub", Qs[1:3]], ["thin", Qs[::2]], ["single", [Qs[2]]], ["perm", [Qs[2], Qs[0], Qs[3], Qs[1]]], ["super", sorted(set(Qs) | {case["obs"][0]["t"][0]}, key=F)]]
             case["degree"] = rng.choice([1, 2])
             case["hu"] = rs(rng.choice([Fraction(3, 4), Fraction(1)]))
     if method == "LP" and not entry.startswith(("PSplines", "LocalPolynomial")) and not two_d and dom == "unit" and rng.random() < 0.5:
@@ -202,7 +214,7 @@ def _case(rng: Rng, tier, entry=None, force=None):
 
 
 def gen_cases(rng: Rng, tier):
-    n = dict(quick=170, thorough=2200)[tier]
+    n = dict(quick=150, thorough=2200)[tier]
     k = 0
     # structured head: every entry point with both methods, away from [0,1] too
     for entry in sorted(set(ENTRIES)):
@@ -413,8 +425,15 @@ def run_impl(case):
         return fd.covariance(points=points, method_smoothing="LP", degree=case["degree"], kernel_name=case["kernel"], **bw)
 
     with _Recorder() as rec:
-        for nm, p1, p2 in calls:
-            res = call(_dargs(p1, p2))
+        for ci, (nm, p1, p2) in enumerate(calls):
+            try:
+                res = call(_dargs(p1, p2))
+            except Exception as e:  # noqa: BLE001 — a failing further query set must not hide the others
+                if ci == 0:
+                    raise
+                rec.take()
+                out["calls"].append(dict(name=nm, err=f"{type(e).__name__}: {str(e)[:120]}"))
+                continue
             log = rec.take()
             c = dict(name=nm, vals=np.asarray(res.values).tolist())
             if method == "PS":
@@ -524,6 +543,8 @@ def model_lines(case, impl):
     what = case["entry"].split(".")[1]
     req = _requested(case)
     for ci, (c, (nm, p1, p2)) in enumerate(zip(impl["calls"], _calls(case))):
+        if "err" in c:
+            continue
         if "fits" in c:
             for f in c["fits"]:
                 if len(f["dom"]) == 1:
@@ -580,6 +601,8 @@ def compare(case, impl, model):
     k = 0
     worst = 0.0
     for ci, (c, (nm, p1, p2)) in enumerate(zip(impl["calls"], _calls(case))):
+        if "err" in c:
+            continue
         flat = _flat(case, ci, c["vals"])
         if "fits" in c:
             nfit = len(c["fits"])
@@ -669,6 +692,9 @@ def oracle(case, impl):
         base.setdefault(loc, v)
     for ci in range(1, len(calls)):
         nm = calls[ci][0]
+        if "err" in impl["calls"][ci]:
+            bad("runs", f"[{case['method']}] query set '{nm}'={calls[ci][1]} raises {impl['calls'][ci]['err']} (the base query set is accepted)")
+            continue
         fl_ = _flat(case, ci, impl["calls"][ci]["vals"])
         expected = len(calls[ci][1]) * (len(calls[ci][2]) if calls[ci][2] is not None else 1)
         for loc, v in fl_:
